@@ -354,6 +354,31 @@ func TestGenC11(t *testing.T) {
 						_ = pc.Close()
 					}
 					synctest.Wait()
+					// ... and a late Write or Read through those closed handles fails, without touching the new connection
+					for hi, pc := range prev {
+						pc := pc
+						type res struct {
+							n   int
+							err error
+						}
+						wr := make(chan res, 1)
+						go func() { n, err := pc.Write([]byte("WRITTEN-ON-A-CLOSED-CONNECTION")); wr <- res{n, err} }()
+						var got res
+						got.err = fmt.Errorf("still blocked")
+						for i := 0; i < 40; i++ {
+							select {
+							case got = <-wr:
+								i = 1000
+							default:
+								time.Sleep(250 * time.Millisecond)
+								synctest.Wait()
+							}
+						}
+						q.check(got.err != nil, "c12:write-on-a-closed-connection-succeeds", func() string {
+							return fmt.Sprintf("scenario %d round %d: connection %d was closed (twice) and connection %d is in use; Write on handle %d of connection %d returned n=%d err=nil", sc, round, round-1, round, hi, round-1, got.n)
+						})
+					}
+					q.stat("late_write_on_closed_connection", 1)
 					msg2 := rr.bytes(1 + rr.intn(100))
 					go func() { _, _ = nC.Write(msg2) }()
 					buf2 := make([]byte, 200)
